@@ -27,6 +27,7 @@ func main() {
 	dump := flag.String("dump", "", "debug: templates|jsfree")
 	mutant := flag.String("mutant", "", "self-test: apply mutant <id> through an in-memory overlay")
 	noEvidence := flag.Bool("no-evidence", false, "do not write evidence/replay files (self-test)")
+	dumpLocals := flag.Bool("dump-locals", false, "print the reference table of local variable names (reference_locals.json)")
 	renames := flag.Bool("renames", false, "debug: list local variables of the functions carrying obligations (input of tools/rename_fuzz.py)")
 	listObs := flag.Bool("list", false, "debug: print every obligation (rule, key, verdict, site)")
 	listMutants := flag.Bool("list-mutants", false, "list mutant ids for -property")
@@ -49,6 +50,9 @@ func main() {
 
 	c := ctx.New(*repo, *verif, *tier)
 	rules.LoadSeedMutants(c.Verif)
+	if *dumpLocals {
+		c.NoAlpha = true
+	}
 	for _, o := range overlays {
 		i := strings.Index(o, "=")
 		if i < 0 {
@@ -140,6 +144,11 @@ func main() {
 		}
 	}
 	runRules()
+	if *dumpLocals {
+		b, _ := json.MarshalIndent(c.DumpLocals(), "", " ")
+		fmt.Println(string(b))
+		return
+	}
 	if *renames {
 		rules.DumpRenames(c, r.Obs)
 		return
